@@ -1,4 +1,200 @@
 package main
 
-func thoroughConfigs(p *Prog, r *Report, repo string)         {}
-func thoroughSelftest(p *Prog, r *Report, repo, verif string) {}
+import (
+	"fmt"
+	"os"
+	"os/exec"
+	"path/filepath"
+	"sort"
+	"strings"
+	"sync"
+)
+
+// thoroughConfigs re-runs the rules of the property under the other build
+// configurations of the repository: -tags test (the space-limited os.File.Write)
+// and, for the os shim, GOOS=windows (type-check only).
+func thoroughConfigs(p *Prog, r *Report, repo string) {
+	p2, err := Load(repo, "test", "")
+	if err != nil {
+		r.Undecided("config", "tags=test", "", fmt.Sprintf("cannot load with -tags test: %v", err))
+	} else {
+		r2 := NewReport(r.Prop, r.Tier, r.Seed)
+		registry[r.Prop](p2, r2)
+		n := 0
+		for _, o := range r2.Obls {
+			o.Construct = o.Construct + " [tags=test]"
+			if o.Verdict == Violated || o.Verdict == Undecided {
+				// the same obligation in the default configuration decides known-finding matching
+				o.Construct = strings.TrimSuffix(o.Construct, " [tags=test]")
+				dup := false
+				for _, d := range r.Obls {
+					if d.Key() == o.Key() && d.Verdict == o.Verdict {
+						dup = true
+					}
+				}
+				if dup {
+					continue
+				}
+				o.Construct += " [tags=test]"
+				r.add(o)
+			}
+			n++
+		}
+		r.Analysed["obligations_tags_test"] = n
+		r.Note("configuration -tags test: %d obligations evaluated, verdicts merged", n)
+	}
+	// GOOS=windows: the other half of the ENOSPC constant must type-check
+	if _, err := LoadPkgOnly(repo, "windows", "./internal/utils/os"); err != nil {
+		r.Undecided("config", "GOOS=windows internal/utils/os", "", err.Error())
+	} else {
+		r.Note("GOOS=windows: internal/utils/os type-checks")
+	}
+}
+
+// LoadPkgOnly type-checks a single package pattern under another GOOS.
+func LoadPkgOnly(repo, goos, pat string) (int, error) {
+	cmd := exec.Command("go", "vet", pat)
+	cmd.Dir = repo
+	cmd.Env = goEnv("GOOS="+goos, "CGO_ENABLED=0")
+	out, err := cmd.CombinedOutput()
+	if err != nil {
+		return 0, fmt.Errorf("go vet %s (GOOS=%s): %v: %s", pat, goos, err, strings.TrimSpace(string(out)))
+	}
+	return 1, nil
+}
+
+// thoroughSelftest validates the checker itself on the seeded corpus: every patch under
+// /verif/mutants/<prop> must be reported, every patch under /verif/refactors/<prop>
+// must stay silent. Each variant is applied to a fresh copy of the current /repo in its own
+// temporary directory and analysed in its own process.
+func thoroughSelftest(p *Prog, r *Report, repo, verif string) {
+	type variant struct {
+		path string
+		want int // 1 = must be reported, 0 = must be silent
+	}
+	var vs []variant
+	for _, d := range []struct {
+		dir  string
+		want int
+	}{{"mutants", 1}, {"refactors", 0}} {
+		m, _ := filepath.Glob(filepath.Join(verif, d.dir, r.Prop, "*.patch"))
+		sort.Strings(m)
+		for _, f := range m {
+			vs = append(vs, variant{f, d.want})
+		}
+		// seeded changes written by independent agents
+		if d.want == 1 {
+			sm, _ := filepath.Glob(filepath.Join(verif, "seeded", "*", "patch.diff"))
+			sort.Strings(sm)
+			for _, f := range sm {
+				meta, _ := os.ReadFile(filepath.Join(filepath.Dir(f), "meta.json"))
+				if strings.Contains(string(meta), "\"detected_by\"") && strings.Contains(string(meta), "\""+r.Prop+"\"") &&
+					seededDetectedBy(string(meta), r.Prop) {
+					vs = append(vs, variant{f, 1})
+				}
+			}
+		}
+	}
+	if len(vs) == 0 {
+		r.Note("selftest: no seeded variants for %s", r.Prop)
+		return
+	}
+	type result struct {
+		v      variant
+		status string
+		detail string
+	}
+	results := make([]result, len(vs))
+	sem := make(chan struct{}, 4)
+	var wg sync.WaitGroup
+	self, _ := os.Executable()
+	for i, v := range vs {
+		wg.Add(1)
+		go func(i int, v variant) {
+			defer wg.Done()
+			sem <- struct{}{}
+			defer func() { <-sem }()
+			results[i] = result{v: v}
+			tmp, err := os.MkdirTemp("", "fsdbcheck-variant-")
+			if err != nil {
+				results[i].status, results[i].detail = "error", err.Error()
+				return
+			}
+			defer os.RemoveAll(tmp)
+			cp := exec.Command("rsync", "-a", "--exclude", ".git", repo+"/", tmp+"/")
+			if out, err := cp.CombinedOutput(); err != nil {
+				results[i].status, results[i].detail = "error", string(out)
+				return
+			}
+			ap := exec.Command("git", "apply", "--whitespace=nowarn", v.path)
+			ap.Dir = tmp
+			ap.Env = append(os.Environ(), "GIT_CEILING_DIRECTORIES=/")
+			if out, err := ap.CombinedOutput(); err != nil {
+				results[i].status, results[i].detail = "skipped", "patch does not apply to the current tree: "+strings.TrimSpace(string(out))
+				return
+			}
+			ck := exec.Command(self, "-repo", tmp, "-verif", verif, "-prop", r.Prop, "-tier", "quick", "-no-evidence")
+			out, _ := ck.CombinedOutput()
+			code := ck.ProcessState.ExitCode()
+			viol := strings.Contains(string(out), "VIOLATION property="+r.Prop)
+			switch {
+			case v.want == 1 && code == 1 && viol:
+				results[i].status = "killed"
+				for _, l := range strings.Split(string(out), "\n") {
+					if strings.HasPrefix(l, "OBLIGATION") {
+						results[i].detail = strings.TrimPrefix(l, "OBLIGATION ")
+						break
+					}
+				}
+			case v.want == 1:
+				results[i].status, results[i].detail = "MISS", fmt.Sprintf("exit %d", code)
+			case v.want == 0 && code == 0:
+				results[i].status = "silent"
+			default:
+				results[i].status = "NOISE"
+				for _, l := range strings.Split(string(out), "\n") {
+					if strings.HasPrefix(l, "OBLIGATION") || strings.HasPrefix(l, "LOAD-FAILURE") {
+						results[i].detail = l
+						break
+					}
+				}
+			}
+		}(i, v)
+	}
+	wg.Wait()
+	st := map[string]any{}
+	counts := map[string]int{}
+	var rows []map[string]string
+	for _, x := range results {
+		counts[x.status]++
+		name := strings.TrimPrefix(x.v.path, verif+"/")
+		rows = append(rows, map[string]string{"variant": name, "status": x.status, "detail": x.detail})
+		switch x.status {
+		case "MISS":
+			fmt.Printf("SELFTEST-MISS %s %s\n", name, x.detail)
+			r.Undecided("selftest", name, "", "seeded violation not reported: the rule was weakened")
+		case "NOISE":
+			fmt.Printf("SELFTEST-NOISE %s %s\n", name, x.detail)
+			r.Undecided("selftest", name, "", "behaviour-preserving variant reported: "+x.detail)
+		case "error":
+			r.Undecided("selftest", name, "", x.detail)
+		}
+	}
+	st["counts"] = counts
+	st["variants"] = rows
+	r.selftest = st
+	r.Analysed["selftest_variants"] = len(vs)
+}
+
+func seededDetectedBy(meta, prop string) bool {
+	i := strings.Index(meta, "\"detected_by\"")
+	if i < 0 {
+		return false
+	}
+	rest := meta[i:]
+	j := strings.Index(rest, "]")
+	if j < 0 {
+		return false
+	}
+	return strings.Contains(rest[:j], "\""+prop+"\"")
+}
